@@ -29,6 +29,7 @@ EXPLANATION = (
     ' C12.D: the flag get_creator_node_id compares with an integer literal is never supplied as a member of a plain Enum by a producer of a response. C12.Z: no truthiness test on an int-typed value.'
     ' C12.F: in the methods touching the EPR request / response queues no state change precedes a raise, an assert or a call into the network stack (which may refuse): a refused request is never outstanding. C12.K: memoisation keys cover the arguments.'
     " Executed abstractly (checker-side AST interpreter): _extract_epr_info for both directionalities with one outstanding request in each dictionary; the keep-response handler for busy / free x pair index (maps entry <pair index> of the request's qubit array of the request's application to the delivered physical qubit, defers when busy); _handle_pending_epr_responses over ALL lists of up to three pending responses with outcome in {no request, deferred, handled} (order of tries, what stays pending, one decrement before the retirement test, info stored under the pair index computed before the decrement, waits exactly when something stays pending); the three wait handlers over five delivery schedules x three initial contents (poll exactly while the awaited entries are undefined)."
+    ' C12.K/D/A/B: _extract_epr_info with two requests per key and neighbouring keys, _handle_last_epr_pair for pairs left 0..2 and both roles, _has_virtual_address over three unit modules and addresses -1..4 are executed.'
 )
 LEVEL_TEXT = (
     "Static analysis, structure only: necessary shape conditions of the request/response matching for every access site. The "
